@@ -419,6 +419,9 @@ func SetSlice(dest reflect.Value, objects interface{}) error {
 					return err
 				}
 				SetValue(dest, cv)
+				// the holder keeps the converted list: further references of the same type share it
+				// instead of converting (and copying) the whole list once more each
+				h.change(cv)
 			}
 			return nil
 		}
